@@ -412,11 +412,13 @@ def run_body(body, name, tier, seed, functions=(), bounds=None, stubs=(), timeou
     sat_claims = []  # (claim name, key, model)
     unsat_names_by_path = []
     witness_models = []
+    claim_keys = {}
 
     def fn(ctx):
         ok_names = set()
 
         def on_claim(cname, key, ob):
+            claim_keys[cname] = key
             if ob.status == "sat":
                 sat_claims.append((cname, key, ob.model, ob.text))
             elif ob.status == "unsat":
@@ -456,6 +458,22 @@ def run_body(body, name, tier, seed, functions=(), bounds=None, stubs=(), timeou
             w = ctx.reachable("path-reachable")
             if w.status == "sat":
                 witness_models.append((w.model, ok_names))
+                # a second, diversified witness (inputs non-zero and pairwise different where the path allows it): the default model
+                # of a path is mostly zeros, which hides differences between the shims and real numpy (dtype-dependent code paths)
+                try:
+                    ins = [v for k, v in ctx.inputs.items() if z3.is_real(v) and not k.endswith("!cut")][:10]
+                    if ins:
+                        div = [v != 0 for v in ins] + [a != b for i, a in enumerate(ins) for b in ins[i + 1 :]]
+                        ctx.solver.push()
+                        try:
+                            ctx.solver.set("timeout", 1500)
+                            ctx.solver.add(*div)
+                            if ctx.solver.check() == z3.sat:
+                                witness_models.append((ctx.model_dict(), ok_names))
+                        finally:
+                            ctx.solver.pop()
+                except z3.Z3Exception:
+                    pass
         return True
 
     st = explore(fn, timeout_ms=timeout_ms, seed=seed, max_paths=max_paths, feasibility=feasibility)
@@ -483,7 +501,16 @@ def run_body(body, name, tier, seed, functions=(), bounds=None, stubs=(), timeou
                 continue  # float rounding of the witness left the assumed region
             bad = [n for n, v in env.results.items() if not v and n in ok_names and n not in sat_names]
             if bad:
-                res["errors"].append("witness replay: claims %s proved symbolically fail concretely (encoding error?) model=%s" % (bad[:4], _trim(model)))
+                # The real, unpatched code fails a claim on an in-domain input although the encoding proved it: the encoding
+                # abstracts something the code depends on (typically a dtype-dependent numpy path). The concrete failure is a
+                # violation of the property in its own right and is reported as such (it replays like any counterexample);
+                # auxiliary lemmas (solver aids, not property statements) only count as an encoding error.
+                real = [n for n in bad if "lemma" not in n and env.assume_ok_at.get(n, True)]
+                for n in real[:4]:
+                    if not any(v.get("replay", {}).get("claim") == n for v in res["violations"]):
+                        res["violations"].append(dict(key="%s:%s" % (name, claim_keys.get(n, n)), what="%s fails on the real code for the witness input of a path on which the encoding proved it (the encoding abstracts a feature this code path depends on)" % n, model=model, obligations=[n], replay=dict(group=name, claim=n)))
+                if not real:
+                    res["errors"].append("witness replay: claims %s proved symbolically fail concretely (encoding error?) model=%s" % (bad[:4], _trim(model)))
             else:
                 res["witnesses"] += 1
 
